@@ -42,6 +42,9 @@ Judge(i) ==
   /\ IF ev.acc # ev.accNoAlloc THEN MM(i, ev, "C11/two-parsers-disagree", [input |-> Text(ev)]) ELSE TRUE
   /\ IF ev.uci /\ ~(ev.uciOut = ev.baseFen \/ (ev.uciAcc /\ ev.uciOut = ev.uciPrinted))
      THEN MM(i, ev, "C11/uci-installed-a-rejected-position", [input |-> Text(ev), before |-> ev.baseFen, after |-> ev.uciOut]) ELSE TRUE
+  \* ... nor does a rejected position command play its move list on the current position
+  /\ IF "uciMovesOut" \in DOMAIN ev /\ ev.uciMovesOut # ev.baseFen
+     THEN MM(i, ev, "C11/uci-installed-a-rejected-position", [input |-> Text(ev), moves |-> ev.uciMove, before |-> ev.baseFen, after |-> ev.uciMovesOut]) ELSE TRUE
 
 TInit == l = 1
 TNext == /\ l <= Len(Trace)
